@@ -19,6 +19,12 @@
   `deep r v` is "format the value `v` (recursively when `r`)": for the real formatter it is
   `_get_formatted_iterable(v, …, is_recursive = r)`.
 
+  Known deviation of the code (finding, see Props/C08.lean `single_conversion_formats_converted_text`):
+  for a single expression with a conversion and neither `rf`/`ff` nor an enclosing recursive format
+  the code converts first and then formats the *converted text* (`'{d!s}'` with `d = {}` parses the
+  text `{}` as a field and raises), where this spec formats the object and converts the result — as
+  the code itself does under `:rf`.
+
   Error precedence: like the code (and unlike `str.format`) all expressions are resolved before the
   first `format()` call, so a lookup error in a later expression wins over a format-spec error in
   an earlier one. Where both succeed the texts are the same.
@@ -57,10 +63,13 @@ def fieldObj (deep : Bool → Val → Except Exc Val) (ctx : Ctx) (isRec : Bool)
   let obj ← if isRf f.spec || (isRec && !isFf f.spec) then deep true obj else pure obj
   convertField obj f.conv
 
-/-- A string that is exactly one expression. -/
+/-- A string that is exactly one expression: the referenced object itself, recursively formatted
+    (unless `:ff`), then converted if a conversion is given, and turned into text only by a format
+    spec. The recursive flag is on for `:rf` and inside a recursive format. -/
 def formatSingle (deep : Bool → Val → Except Exc Val) (ctx : Ctx) (isRec : Bool) (f : FieldT) : Except Exc Val := do
-  let obj ← fieldObj deep ctx isRec f
-  let obj ← if isRf f.spec || isFf f.spec || isRec then pure obj else deep false obj
+  let obj ← getField ctx f.name
+  let obj ← if isFf f.spec then pure obj else deep (isRf f.spec || isRec) obj
+  let obj ← convertField obj f.conv
   if specBody f.spec = [] then pure obj
   else do
     let t ← formatField obj (specBody f.spec)
@@ -100,6 +109,11 @@ def format (deep : Bool → Val → Except Exc Val) (ctx : Ctx) (isRec : Bool) (
   | [.lit t] => pure (.str (String.ofList t))
   | [.fld f] => formatSingle deep ctx isRec f
   | ps => formatFlat deep ctx isRec ps
+
+/-- Python's own `str.format` over the context, one level deep: what a mixed string without
+    `rf` means. Nothing referenced is formatted again — `deep` is never consulted. -/
+def pyFormat (ctx : Ctx) (ps : List Part) : Except Exc Val :=
+  formatFlat (fun _ v => pure v) ctx false ps
 
 end Spec
 
